@@ -4,6 +4,8 @@
 #![allow(dead_code)]
 #[path = "../../hcore/src/common.rs"]
 mod common;
+#[path = "../../hnode/src/node.rs"]
+pub mod node;
 #[path = "../../hnode/src/c11.rs"]
 mod c11;
 
